@@ -28,6 +28,8 @@
 (*   "nohelper" only the last drop stops, but a marker that does not fit   *)
 (*              is lost (D3 only)                                          *)
 (*   "fixed"    the code as it is now                                      *)
+(*   "blocking-emit"  emit waits for room (send instead of try_send): must *)
+(*              be refuted by C10_NeverBlocked                             *)
 (***************************************************************************)
 EXTENDS Naturals, Integers, Sequences, FiniteSets, TLC, SequencesExt, Json
 
@@ -93,6 +95,7 @@ EmitStart(h) ==
 
 EmitTry(h) ==
   /\ ppc[h] = "try"
+  /\ (StopPolicy = "blocking-emit" => CanSend)      \* model mutant: send() instead of try_send()
   /\ IF CanSend
      THEN /\ chan' = Append(chan, pm[h]) /\ accepted' = Append(accepted, pm[h]) /\ pok' = [pok EXCEPT ![h] = TRUE]
      ELSE /\ UNCHANGED <<chan, accepted>> /\ pok' = [pok EXCEPT ![h] = FALSE]
@@ -287,6 +290,13 @@ C08_Safe == IsPrefix(delivered, accepted)
 \* C10: the capacity is never exceeded; an unbounded / roomy queue never refuses (see EmitTry)
 \* (a rendezvous hand-over is modelled as one slot that is only usable while the receiver waits)
 C10_Cap == Cap = UNB \/ Len(chan) <= (IF Cap = 0 THEN 1 ELSE Cap)
+\* C10 / C09: a producer's steps and the dropping thread's steps are always enabled - emit never waits for the worker
+\* or for room, dropping a handle never blocks (whatever the worker, the wrapped sink and the queue are doing)
+C10_NeverBlocked ==
+  /\ \A h \in Handles : /\ (ppc[h] = "try" => ENABLED EmitTry(h))
+                         /\ (ppc[h] = "count" => ENABLED EmitCount(h))
+                         /\ (ppc[h] = "ret" => ENABLED EmitRet(h))
+  /\ (dpc = "begin" => ENABLED StopTry) /\ (dpc = "full" => ENABLED SpawnHelper) /\ (dpc = "done" => ENABLED DropRet)
 \* C15: at quiescence the counters are exact; queued() never wraps
 Quiescent == (\A h \in Handles : ppc[h] = "idle") /\ wk \in {"recv", "ended"} /\ chan = <<>> /\ spc = "idle"
 C15_Quiescent == Quiescent => submitted = Len(accepted) /\ drained = Len(delivered)
